@@ -33,6 +33,16 @@
   `EvalBound` turned out to be unnecessary for all statements (it is defined in SearchBasic for
   reference only): "v strictly inside the window forces score = v" follows from `Contract` alone.
 
+  Ranked families (Lemmas/Ranked.lean).  `Closed S ∧ HashInj S` is unsatisfiable for real chess from
+  most positions (the closure of the start position has more than 2^64 elements).  Every theorem below
+  therefore exists in a `_ranked` form for a depth-ranked family `S : Nat → P → Prop` with
+  `Ranked G S` (children of a node of `S (d+1)` lie in `S d`; `S (d+1) ⊆ S d`), the node hypothesis
+  `S d p` (`d` = remaining depth; root of `find_best_move … D`: `S D p`), the hash injective on
+  `Ranked.U S = ⋃ d, S d` only, and the table invariant ranging over `Ranked.U S`.  Positions below the
+  horizon (quiescence) need not lie in the family.  The closed-set theorems are the corollaries for
+  the constant family `S d := S`.  Props/SearchRanked.lean instantiates the family with the positions
+  within `D` plies of the root and shows on a toy game what was gained.
+
   Extra hypothesis found necessary: `NEGATIVE_INFINITY ≤ α` and `β ≤ INFINITY` in `negamax_contract`.
   `SearchResult::worst` is -32767, not -∞; `contract_fails_below_window` is the two-position
   counterexample for α = -50000.  Every window reachable from the root satisfies the hypothesis.
@@ -135,7 +145,29 @@ theorem quiesce_contract (fuel qf : Nat) (p : P) (α β q : Int) (s s' : SearchS
 
 /-! ## 2. negamax -/
 
-/-- generic form for a score view `c`. -/
+/-- generic form for a score view `c`, ranked family: the node lies in `S d` where `d` is the remaining
+    depth, the hash is injective on `Ranked.U S` only. -/
+theorem negamax_contract_view_ranked {c : Int → Int} (hc : Clamp c) (S : Nat → P → Prop)
+    (hr : Ranked G S) (hinj : HashInj G (Ranked.U S)) (qfuel qf d : Nat) (p : P) (ply : Nat)
+    (α β v : Int) (s s' : SearchState) (ro : Option SearchResult)
+    (hα : NEGATIVE_INFINITY ≤ α) (hαβ : α < β) (hβ : β ≤ INFINITY) (hSp : S d p)
+    (hT : TTSound G c (Ranked.U S) qf s.tt) (hR : RepOK s) (hv : Spec.V G qf d p = some v)
+    (hq : qf ≤ qfuel)
+    (hrun : negamax G qfuel d p ply α β s = (ro, s')) (hns : NoStop s s')
+    (hdh : s'.deeperHits = s.deeperHits) :
+    ∃ r, ro = some r ∧ Contract (c v) (c r.score) α β ∧ TTSound G c (Ranked.U S) qf s'.tt ∧
+      s'.rep = s.rep ∧
+      (1 ≤ d → G.moves p ≠ [] → ∃ m, r.bestMove = some m ∧ m ∈ G.moves p) ∧
+      (α < c r.score → c r.score < β → ∀ k m x, d = k + 1 → r.bestMove = some m →
+        Spec.V G qf k (G.play p m) = some x → -x = r.score) := by
+  have h1 := negamax_ok_ranked G hc hr hinj qfuel hq d p ply α β s v hSp hT hR hv hα hαβ hβ hns.1
+  have h2 := negamax_frame G qfuel d p ply α β s
+  rw [hrun] at h1 h2
+  obtain ⟨r, hr, hres, hT'⟩ := h1 hns.2 hdh
+  exact ⟨r, hr, hres.contract, hT', h2.rep, hres.move,
+    fun a b k m x hk hm hx => hres.pv a b k hk m x hm hx⟩
+
+/-- generic form for a score view `c` (closed set = constant family). -/
 theorem negamax_contract_view {c : Int → Int} (hc : Clamp c) (S : P → Prop) (hcl : Closed G S)
     (hinj : HashInj G S) (qfuel qf d : Nat) (p : P) (ply : Nat) (α β v : Int) (s s' : SearchState)
     (ro : Option SearchResult)
@@ -147,17 +179,36 @@ theorem negamax_contract_view {c : Int → Int} (hc : Clamp c) (S : P → Prop) 
       (1 ≤ d → G.moves p ≠ [] → ∃ m, r.bestMove = some m ∧ m ∈ G.moves p) ∧
       (α < c r.score → c r.score < β → ∀ k m x, d = k + 1 → r.bestMove = some m →
         Spec.V G qf k (G.play p m) = some x → -x = r.score) := by
-  have h1 := negamax_ok G hc hcl hinj qfuel hq d p ply α β s v hSp hT hR hv hα hαβ hβ hns.1
-  have h2 := negamax_frame G qfuel d p ply α β s
-  rw [hrun] at h1 h2
-  obtain ⟨r, hr, hres, hT'⟩ := h1 hns.2 hdh
-  exact ⟨r, hr, hres.contract, hT', h2.rep, hres.move,
-    fun a b k m x hk hm hx => hres.pv a b k hk m x hm hx⟩
+  have h := negamax_contract_view_ranked G hc (fun _ => S) (Ranked.ofClosed hcl)
+    (by rw [Ranked.U_const]; exact hinj) qfuel qf d p ply α β v s s' ro hα hαβ hβ hSp
+    (by rw [Ranked.U_const]; exact hT) hR hv hq hrun hns hdh
+  rw [Ranked.U_const] at h
+  exact h
 
 /-- **negamax_contract** (strict view).  A completed `negamax` that reused no deeper entry returns a
     score satisfying the fail-soft contract for the depth-`d` minimax value, keeps the table sound and
     the stack unchanged.  For `d ≥ 1` at a position with moves the result carries a legal move, and a
     score strictly inside the window is the exact value AND the negated value of that move's child. -/
+theorem negamax_contract_ranked (S : Nat → P → Prop) (hr : Ranked G S)
+    (hinj : HashInj G (Ranked.U S)) (qfuel qf d : Nat)
+    (p : P) (ply : Nat) (α β v : Int) (s s' : SearchState) (ro : Option SearchResult)
+    (hα : NEGATIVE_INFINITY ≤ α) (hαβ : α < β) (hβ : β ≤ INFINITY) (hSp : S d p)
+    (hT : TTSoundStrict G (Ranked.U S) qf s.tt) (hR : RepOK s) (hv : Spec.V G qf d p = some v)
+    (hq : qf ≤ qfuel)
+    (hrun : negamax G qfuel d p ply α β s = (ro, s')) (hns : NoStop s s')
+    (hdh : s'.deeperHits = s.deeperHits) :
+    ∃ r, ro = some r ∧ Contract v r.score α β ∧ TTSoundStrict G (Ranked.U S) qf s'.tt ∧
+      s'.rep = s.rep ∧
+      (1 ≤ d → G.moves p ≠ [] → ∃ m, r.bestMove = some m ∧ m ∈ G.moves p) ∧
+      (α < r.score → r.score < β → r.score = v ∧ ∀ k m x, d = k + 1 → r.bestMove = some m →
+        Spec.V G qf k (G.play p m) = some x → -x = v) := by
+  obtain ⟨r, hr, hc, hT', hrep, hm, hpv⟩ := negamax_contract_view_ranked G clamp_id S hr hinj qfuel qf d
+    p ply α β v s s' ro hα hαβ hβ hSp hT hR hv hq hrun hns hdh
+  refine ⟨r, hr, hc, hT', hrep, hm, fun a b => ?_⟩
+  have e : r.score = v := hc.2.2 a b
+  exact ⟨e, fun k m x hk hm' hx => by rw [← e]; exact hpv a b k m x hk hm' hx⟩
+
+/-- **negamax_contract** for a closed set (the constant family). -/
 theorem negamax_contract (S : P → Prop) (hcl : Closed G S) (hinj : HashInj G S) (qfuel qf d : Nat)
     (p : P) (ply : Nat) (α β v : Int) (s s' : SearchState) (ro : Option SearchResult)
     (hα : NEGATIVE_INFINITY ≤ α) (hαβ : α < β) (hβ : β ≤ INFINITY) (hSp : S p)
@@ -168,14 +219,30 @@ theorem negamax_contract (S : P → Prop) (hcl : Closed G S) (hinj : HashInj G S
       (1 ≤ d → G.moves p ≠ [] → ∃ m, r.bestMove = some m ∧ m ∈ G.moves p) ∧
       (α < r.score → r.score < β → r.score = v ∧ ∀ k m x, d = k + 1 → r.bestMove = some m →
         Spec.V G qf k (G.play p m) = some x → -x = v) := by
-  obtain ⟨r, hr, hc, hT', hrep, hm, hpv⟩ := negamax_contract_view G clamp_id S hcl hinj qfuel qf d p ply
-    α β v s s' ro hα hαβ hβ hSp hT hR hv hq hrun hns hdh
-  refine ⟨r, hr, hc, hT', hrep, hm, fun a b => ?_⟩
-  have e : r.score = v := hc.2.2 a b
-  exact ⟨e, fun k m x hk hm' hx => by rw [← e]; exact hpv a b k m x hk hm' hx⟩
+  have h := negamax_contract_ranked G (fun _ => S) (Ranked.ofClosed hcl)
+    (by rw [Ranked.U_const]; exact hinj) qfuel qf d p ply α β v s s' ro hα hαβ hβ hSp
+    (by rw [Ranked.U_const]; exact hT) hR hv hq hrun hns hdh
+  rw [Ranked.U_const] at h
+  exact h
 
 /-- **negamax_contract**, won / lost view: the same with every score seen through `clampClass`;
     this is the invariant that survives `cache_search_result`. -/
+theorem negamax_contract_class_ranked (S : Nat → P → Prop) (hr : Ranked G S)
+    (hinj : HashInj G (Ranked.U S))
+    (qfuel qf d : Nat) (p : P) (ply : Nat) (α β v : Int) (s s' : SearchState) (ro : Option SearchResult)
+    (hα : NEGATIVE_INFINITY ≤ α) (hαβ : α < β) (hβ : β ≤ INFINITY) (hSp : S d p)
+    (hT : TTSoundClass G (Ranked.U S) qf s.tt) (hR : RepOK s) (hv : Spec.V G qf d p = some v)
+    (hq : qf ≤ qfuel)
+    (hrun : negamax G qfuel d p ply α β s = (ro, s')) (hns : NoStop s s')
+    (hdh : s'.deeperHits = s.deeperHits) :
+    ∃ r, ro = some r ∧ Contract (Spec.clampClass v) (Spec.clampClass r.score) α β ∧
+      TTSoundClass G (Ranked.U S) qf s'.tt ∧ s'.rep = s.rep ∧
+      (1 ≤ d → G.moves p ≠ [] → ∃ m, r.bestMove = some m ∧ m ∈ G.moves p) :=
+  let ⟨r, hr, hc, hT', hrep, hm, _⟩ := negamax_contract_view_ranked G clamp_clampClass S hr hinj qfuel qf
+    d p ply α β v s s' ro hα hαβ hβ hSp hT hR hv hq hrun hns hdh
+  ⟨r, hr, hc, hT', hrep, hm⟩
+
+/-- **negamax_contract**, won / lost view, for a closed set (the constant family). -/
 theorem negamax_contract_class (S : P → Prop) (hcl : Closed G S) (hinj : HashInj G S)
     (qfuel qf d : Nat) (p : P) (ply : Nat) (α β v : Int) (s s' : SearchState) (ro : Option SearchResult)
     (hα : NEGATIVE_INFINITY ≤ α) (hαβ : α < β) (hβ : β ≤ INFINITY) (hSp : S p)
@@ -184,10 +251,12 @@ theorem negamax_contract_class (S : P → Prop) (hcl : Closed G S) (hinj : HashI
     (hdh : s'.deeperHits = s.deeperHits) :
     ∃ r, ro = some r ∧ Contract (Spec.clampClass v) (Spec.clampClass r.score) α β ∧
       TTSoundClass G S qf s'.tt ∧ s'.rep = s.rep ∧
-      (1 ≤ d → G.moves p ≠ [] → ∃ m, r.bestMove = some m ∧ m ∈ G.moves p) :=
-  let ⟨r, hr, hc, hT', hrep, hm, _⟩ := negamax_contract_view G clamp_clampClass S hcl hinj qfuel qf d p
-    ply α β v s s' ro hα hαβ hβ hSp hT hR hv hq hrun hns hdh
-  ⟨r, hr, hc, hT', hrep, hm⟩
+      (1 ≤ d → G.moves p ≠ [] → ∃ m, r.bestMove = some m ∧ m ∈ G.moves p) := by
+  have h := negamax_contract_class_ranked G (fun _ => S) (Ranked.ofClosed hcl)
+    (by rw [Ranked.U_const]; exact hinj) qfuel qf d p ply α β v s s' ro hα hαβ hβ hSp
+    (by rw [Ranked.U_const]; exact hT) hR hv hq hrun hns hdh
+  rw [Ranked.U_const] at h
+  exact h
 
 /-- the window hypothesis of `negamax_contract` cannot be dropped: fresh state (empty table, empty
     stack, no deadline — so no poll fires and nothing is reused), two positions, window (-50000, 0);
@@ -241,11 +310,12 @@ theorem ttSound_fresh (S : P → Prop) (qf : Nat) : TTSoundClass G S qf ({} : Se
     class — hence EQUAL to it whenever that value lies strictly inside (-32767, 32767) — the
     returned move is a legal move if there is one, it is a minimax-optimal move when the score is
     inside the window, and the table is still sound. -/
-theorem find_best_move_value (S : P → Prop) (hcl : Closed G S) (hinj : HashInj G S) (qfuel qf : Nat)
-    (hq : qf ≤ qfuel) (p : P) (hSp : S p) (D : Nat) (hD : 1 ≤ D) (limit : Limit) (s s' : SearchState)
+theorem find_best_move_value_ranked (S : Nat → P → Prop) (hr : Ranked G S)
+    (hinj : HashInj G (Ranked.U S)) (qfuel qf : Nat)
+    (hq : qf ≤ qfuel) (p : P) (D : Nat) (hSp : S D p) (hD : 1 ≤ D) (limit : Limit) (s s' : SearchState)
     (ro : Option (Int × Option Move)) (v : Int)
     (hV : ∀ d, 1 ≤ d → d ≤ D → ∃ w, Spec.V G qf d p = some w) (hv : Spec.V G qf D p = some v)
-    (hT : TTSoundClass G S qf s.tt) (hrep : s.rep = [])
+    (hT : TTSoundClass G (Ranked.U S) qf s.tt) (hrep : s.rep = [])
     (hrun : findBestMove G qfuel p D limit s = (ro, s')) (hfin : s'.stopSeen = false)
     (hdh : s'.deeperHits = s.deeperHits) :
     ∃ score mv, ro = some (score, mv) ∧
@@ -254,7 +324,7 @@ theorem find_best_move_value (S : P → Prop) (hcl : Closed G S) (hinj : HashInj
       (G.moves p ≠ [] → ∃ m, mv = some m ∧ m ∈ G.moves p) ∧
       (NEGATIVE_INFINITY < v → v < INFINITY → ∀ k m x, D = k + 1 → mv = some m →
         Spec.V G qf k (G.play p m) = some x → -x = v) ∧
-      TTSoundClass G S qf s'.tt := by
+      TTSoundClass G (Ranked.U S) qf s'.tt := by
   have hRE : RootExact G Spec.clampClass qf 1 D p := by
     intro d w _ _ _ r hc
     have h1 := clampClass_range w
@@ -266,7 +336,7 @@ theorem find_best_move_value (S : P → Prop) (hcl : Closed G S) (hinj : HashInj
     · by_cases b : Spec.clampClass r ≥ INFINITY
       · have := hc.2.1 b; omega
       · exact hc.2.2 (by omega) (by omega)
-  have h := findBestMove_ok G clamp_clampClass hcl hinj qfuel hq p hSp D hD limit s hV hRE hT hrep
+  have h := findBestMove_ok_ranked G clamp_clampClass hr hinj qfuel hq p D hSp hD limit s hV hRE hT hrep
   rw [hrun] at h
   obtain ⟨⟨score, mv⟩, hb, hok, hT'⟩ := h hfin hdh
   have hval : Spec.clampClass score = Spec.clampClass v := hok.value v hv
@@ -283,8 +353,60 @@ theorem find_best_move_value (S : P → Prop) (hcl : Closed G S) (hinj : HashInj
   rw [← e]
   exact hok.pv (by rw [hval, e2]; exact a) (by rw [hval, e2]; exact b) k m x hk hm hx
 
+/-- **find_best_move_value** for a closed set (the constant family). -/
+theorem find_best_move_value (S : P → Prop) (hcl : Closed G S) (hinj : HashInj G S) (qfuel qf : Nat)
+    (hq : qf ≤ qfuel) (p : P) (hSp : S p) (D : Nat) (hD : 1 ≤ D) (limit : Limit) (s s' : SearchState)
+    (ro : Option (Int × Option Move)) (v : Int)
+    (hV : ∀ d, 1 ≤ d → d ≤ D → ∃ w, Spec.V G qf d p = some w) (hv : Spec.V G qf D p = some v)
+    (hT : TTSoundClass G S qf s.tt) (hrep : s.rep = [])
+    (hrun : findBestMove G qfuel p D limit s = (ro, s')) (hfin : s'.stopSeen = false)
+    (hdh : s'.deeperHits = s.deeperHits) :
+    ∃ score mv, ro = some (score, mv) ∧
+      Spec.clampClass score = Spec.clampClass v ∧
+      (NEGATIVE_INFINITY < v → v < INFINITY → score = v) ∧
+      (G.moves p ≠ [] → ∃ m, mv = some m ∧ m ∈ G.moves p) ∧
+      (NEGATIVE_INFINITY < v → v < INFINITY → ∀ k m x, D = k + 1 → mv = some m →
+        Spec.V G qf k (G.play p m) = some x → -x = v) ∧
+      TTSoundClass G S qf s'.tt := by
+  have h := find_best_move_value_ranked G (fun _ => S) (Ranked.ofClosed hcl)
+    (by rw [Ranked.U_const]; exact hinj) qfuel qf hq p D hSp hD limit s s' ro v hV hv
+    (by rw [Ranked.U_const]; exact hT) hrep hrun hfin hdh
+  rw [Ranked.U_const] at h
+  exact h
+
 /-- **find_best_move_exact** (strict view): when the value of every iteration lies strictly inside the
     root window, a strictly sound table stays strictly sound and the score is the minimax value. -/
+theorem find_best_move_exact_ranked (S : Nat → P → Prop) (hr : Ranked G S)
+    (hinj : HashInj G (Ranked.U S)) (qfuel qf : Nat)
+    (hq : qf ≤ qfuel) (p : P) (D : Nat) (hSp : S D p) (hD : 1 ≤ D) (limit : Limit) (s s' : SearchState)
+    (ro : Option (Int × Option Move)) (v : Int)
+    (hV : ∀ d, 1 ≤ d → d ≤ D → ∃ w, Spec.V G qf d p = some w)
+    (hin : ∀ d w, 1 ≤ d → d ≤ D → Spec.V G qf d p = some w → NEGATIVE_INFINITY < w ∧ w < INFINITY)
+    (hv : Spec.V G qf D p = some v)
+    (hT : TTSoundStrict G (Ranked.U S) qf s.tt) (hrep : s.rep = [])
+    (hrun : findBestMove G qfuel p D limit s = (ro, s')) (hfin : s'.stopSeen = false)
+    (hdh : s'.deeperHits = s.deeperHits) :
+    ∃ mv, ro = some (v, mv) ∧ (G.moves p ≠ [] → ∃ m, mv = some m ∧ m ∈ G.moves p) ∧
+      (∀ k m x, D = k + 1 → mv = some m → Spec.V G qf k (G.play p m) = some x → -x = v) ∧
+      TTSoundStrict G (Ranked.U S) qf s'.tt := by
+  have hRE : RootExact G id qf 1 D p := by
+    intro d w h1 h2 hw r hc
+    have := hin d w h1 h2 hw
+    simp only [id] at hc ⊢
+    by_cases a : r ≤ NEGATIVE_INFINITY
+    · have := hc.1 a; omega
+    · by_cases b : r ≥ INFINITY
+      · have := hc.2.1 b; omega
+      · exact hc.2.2 (by omega) (by omega)
+  have h := findBestMove_ok_ranked G clamp_id hr hinj qfuel hq p D hSp hD limit s hV hRE hT hrep
+  rw [hrun] at h
+  obtain ⟨⟨score, mv⟩, hb, hok, hT'⟩ := h hfin hdh
+  have hval : score = v := hok.value v hv
+  subst hval
+  have hb' := hin D score hD (Nat.le_refl _) hv
+  exact ⟨mv, hb, hok.move, fun k m x hk hm hx => hok.pv hb'.1 hb'.2 k m x hk hm hx, hT'⟩
+
+/-- **find_best_move_exact** for a closed set (the constant family). -/
 theorem find_best_move_exact (S : P → Prop) (hcl : Closed G S) (hinj : HashInj G S) (qfuel qf : Nat)
     (hq : qf ≤ qfuel) (p : P) (hSp : S p) (D : Nat) (hD : 1 ≤ D) (limit : Limit) (s s' : SearchState)
     (ro : Option (Int × Option Move)) (v : Int)
@@ -297,21 +419,10 @@ theorem find_best_move_exact (S : P → Prop) (hcl : Closed G S) (hinj : HashInj
     ∃ mv, ro = some (v, mv) ∧ (G.moves p ≠ [] → ∃ m, mv = some m ∧ m ∈ G.moves p) ∧
       (∀ k m x, D = k + 1 → mv = some m → Spec.V G qf k (G.play p m) = some x → -x = v) ∧
       TTSoundStrict G S qf s'.tt := by
-  have hRE : RootExact G id qf 1 D p := by
-    intro d w h1 h2 hw r hc
-    have := hin d w h1 h2 hw
-    simp only [id] at hc ⊢
-    by_cases a : r ≤ NEGATIVE_INFINITY
-    · have := hc.1 a; omega
-    · by_cases b : r ≥ INFINITY
-      · have := hc.2.1 b; omega
-      · exact hc.2.2 (by omega) (by omega)
-  have h := findBestMove_ok G clamp_id hcl hinj qfuel hq p hSp D hD limit s hV hRE hT hrep
-  rw [hrun] at h
-  obtain ⟨⟨score, mv⟩, hb, hok, hT'⟩ := h hfin hdh
-  have hval : score = v := hok.value v hv
-  subst hval
-  have hb' := hin D score hD (Nat.le_refl _) hv
-  exact ⟨mv, hb, hok.move, fun k m x hk hm hx => hok.pv hb'.1 hb'.2 k m x hk hm hx, hT'⟩
+  have h := find_best_move_exact_ranked G (fun _ => S) (Ranked.ofClosed hcl)
+    (by rw [Ranked.U_const]; exact hinj) qfuel qf hq p D hSp hD limit s s' ro v hV hin hv
+    (by rw [Ranked.U_const]; exact hT) hrep hrun hfin hdh
+  rw [Ranked.U_const] at h
+  exact h
 
 end Flounder.Props.C05
